@@ -786,6 +786,65 @@ func c14CheckFields(m c14Msg, seq uint16) (sig, msg string) {
 	return "", ""
 }
 
+// c14CheckAlias: encodings that have been handed out, and inputs that have been decoded, are not
+// rewritten by later operations on the message object (transcripts hold them). seq2 is a second
+// message sequence number (datagram stack; on the stream stack setting it is a no-op).
+func c14CheckAlias(m c14Msg, seq, seq2 uint16) (sig, msg string) {
+	var s1, s2 string
+	p := vfRecover(func() {
+		// (a) an encoding returned earlier stays as it was
+		lm := c14ToLib(m)
+		vfSetSeq(lm, seq)
+		out1, err := lm.marshal()
+		if err != nil {
+			return
+		}
+		keep := append([]byte(nil), out1...)
+		vfSetSeq(lm, seq2)
+		out2, err := lm.marshal()
+		if err != nil {
+			return
+		}
+		if !bytes.Equal(out1, keep) {
+			s1 = fmt.Sprintf("%s: the encoding returned by marshal() was rewritten in place by a later setMessageSeq/marshal on the same message", m.Kind)
+			return
+		}
+		if want := c14Frame(m.Kind, c14Encode(m), seq2); !bytes.Equal(out2, want) {
+			s1 = fmt.Sprintf("%s: after the message sequence number was changed marshal() does not give the encoding of the current fields", m.Kind)
+			return
+		}
+		// (b) a decoded input stays as it was
+		in := c14Frame(m.Kind, c14Encode(m), seq)
+		keepIn := append([]byte(nil), in...)
+		lm2 := c14NewLib(m.Kind)
+		if lm2 == nil || !lm2.unmarshal(in) {
+			return
+		}
+		vfSetSeq(lm2, seq2)
+		out3, err := lm2.marshal()
+		if err != nil {
+			return
+		}
+		if !bytes.Equal(in, keepIn) {
+			s2 = fmt.Sprintf("%s: the byte slice handed to unmarshal() was modified by a later setMessageSeq/marshal on the decoded message", m.Kind)
+			return
+		}
+		if want := c14Frame(m.Kind, c14Encode(m), seq2); !bytes.Equal(out3, want) {
+			s2 = fmt.Sprintf("%s: a decoded message whose sequence number was changed does not re-encode to its fields", m.Kind)
+		}
+	})
+	if p != "" {
+		return "marshal-panic", p
+	}
+	if s1 != "" {
+		return "encoding-rewritten:" + m.Kind, s1
+	}
+	if s2 != "" {
+		return "input-rewritten:" + m.Kind, s2
+	}
+	return "", ""
+}
+
 // c14CheckBytes: body is an arbitrary candidate body for a message of this kind (framed by the harness).
 func c14CheckBytes(kind string, body []byte, seq uint16) (sig, msg string, accepted bool) {
 	framed := c14Frame(kind, body, seq)
@@ -846,7 +905,10 @@ type c14Case struct {
 
 func c14RunCase(c c14Case) (sig, msg string) {
 	if c.Msg != nil {
-		return c14CheckFields(*c.Msg, c.Seq)
+		if sig, msg := c14CheckFields(*c.Msg, c.Seq); sig != "" {
+			return sig, msg
+		}
+		return c14CheckAlias(*c.Msg, c.Seq, c.Seq^0x0101)
 	}
 	sig, msg, _ = c14CheckBytes(c.Kind, c.Body, c.Seq)
 	return
@@ -854,13 +916,16 @@ func c14RunCase(c c14Case) (sig, msg string) {
 
 func TestVF_C14(t *testing.T) {
 	kinds := c14KindsForStack()
-	recF := vfRec("C14", "C14-fields", "rapid generators for every field of every message type within the standard's ranges (empty and maximal vectors, every extension, both header forms): library encoding == independent encoding byte for byte, and decode(encode(m)) == m field-wise; non-trivial = at least one non-empty variable-length vector or extension; distinct = hash of the fields")
+	recF := vfRec("C14", "C14-fields", "rapid generators for every field of every message type within the standard's ranges (empty and maximal vectors, every extension, both header forms): library encoding == independent encoding byte for byte, decode(encode(m)) == m field-wise, and neither an encoding handed out earlier nor a decoded input is rewritten when the message's sequence number is changed and it is encoded again; non-trivial = at least one non-empty variable-length vector or extension; distinct = hash of the fields")
 	for _, kind := range kinds {
 		kind := kind
 		vfRapid(t, recF, "fields-"+kind, vfN(1500, 60000), func(t *rapid.T) {
 			m := c14Gen(kind).Draw(t, "msg")
 			seq := uint16(rapid.IntRange(0, 65535).Draw(t, "seq"))
 			sig, msg := c14CheckFields(m, seq)
+			if sig == "" {
+				sig, msg = c14CheckAlias(m, seq, seq^0x0101)
+			}
 			if sig != "" {
 				mm := m
 				recF.Fail(t, sig, c14Case{Kind: kind, Msg: &mm, Seq: seq}, "%s", msg)
